@@ -73,7 +73,19 @@ func (s *Netceptor) listen(ctx context.Context, service string, tlscfg *tls.Conf
 			tlscfg.GetConfigForClient = func(hi *tls.ClientHelloInfo) (*tls.Config, error) {
 				clientTLSCfg := tlscfg.Clone()
 				remoteNode := strings.Split(hi.Conn.RemoteAddr().String(), ":")[0]
-				clientTLSCfg.VerifyPeerCertificate = ReceptorVerifyFunc(tlscfg, [][]byte{}, remoteNode, ExpectedHostnameTypeReceptor, VerifyClient, s.Logger)
+				// The verifier configured on the TLS profile is the only holder of the
+				// profile's pinned client fingerprints, so keep it in the chain.
+				profileVerify := tlscfg.VerifyPeerCertificate
+				nodeVerify := ReceptorVerifyFunc(tlscfg, [][]byte{}, remoteNode, ExpectedHostnameTypeReceptor, VerifyClient, s.Logger)
+				clientTLSCfg.VerifyPeerCertificate = func(rawCerts [][]byte, verifiedChains [][]*x509.Certificate) error {
+					if profileVerify != nil {
+						if err := profileVerify(rawCerts, verifiedChains); err != nil {
+							return err
+						}
+					}
+
+					return nodeVerify(rawCerts, verifiedChains)
+				}
 
 				return clientTLSCfg, nil
 			}
